@@ -2,8 +2,9 @@
 From Coq Require Import Reals List Lra.
 From AhrsLib Require Import Base Rot.
 From AhrsModel Require Import C03_driver.
-From AhrsGen Require Import C03gen_R.
-From AhrsProps Require Import C03_core C03_steps C03_batch C03_partial_a C03_partial_b.
+From AhrsModel Require Import C03_letin.
+From AhrsGen Require Import C03gen_R C03gen_L.
+From AhrsProps Require Import C03_core C03_steps C03_batch C03_partial_L C03_full_L C03_eq_a C03_eq_b.
 Import ListNotations.
 Open Scope R_scope.
 
@@ -41,9 +42,33 @@ Theorem C03_unit_invariant_angular : forall closed q0 h, quat_ok q0 -> Forall gy
 Proof. exact angular_batch_ok. Qed.
 Print Assumptions C03_unit_invariant_angular.
 
-(* PARTIAL (missing: non-zero-ness of the pre-normalisation vector; absence of rejections): on every path, for every input,
-   what these steps / estimators return is a unit quaternion or, only when the vector handed to the final normalisation is
-   exactly zero, the zero vector *)
+(* unit_after_step, Mahony MARG: for every unit state, every bias, every non-zero gyro, accelerometer and magnetometer sample the
+   step returns (never raises) a unit quaternion: the pre-normalisation vector has norm >= 1 (about pysym's print, via eq_mahony_marg) *)
+Theorem C03_mahony_marg_unit_after_step : forall w x y z b0 b1 b2 gx gy gz ax ay az mx my mz,
+  w*w + x*x + y*y + z*z = 1 -> 0 < gx*gx + gy*gy + gz*gz -> 0 < ax*ax + ay*ay + az*az -> 0 < mx*mx + my*my + mz*mz ->
+  exists a b c d b0' b1' b2', C03_mahony_marg_R w x y z b0 b1 b2 gx gy gz ax ay az mx my mz = Val [a;b;c;d;b0';b1';b2'] /\ a*a + b*b + c*c + d*d = 1.
+Proof. intros w x y z b0 b1 b2 gx gy gz ax ay az mx my mz U G A M. rewrite <- eq_mahony_marg. exact (mahony_marg_unitL w x y z b0 b1 b2 gx gy gz ax ay az mx my mz U G A M). Qed.
+Print Assumptions C03_mahony_marg_unit_after_step.
+
+(* unit_after_step, Madgwick IMU (default gain 0.033, dt 0.01): v . q = 1 - beta dt (g . q) >= 1 - beta dt > 0, so the vector handed to
+   the normalisation is non-zero for EVERY unit state and non-zero samples (in the reals: the 0/0 of a zero gradient is 0 there; the
+   binary64 NaN at such stationary points is the recorded finding Madgwick.updateIMU/nan-or-nan-rejected@antipodal) *)
+Theorem C03_madgwick_imu_unit_after_step : forall w x y z gx gy gz ax ay az,
+  w*w + x*x + y*y + z*z = 1 -> 0 < gx*gx + gy*gy + gz*gz -> 0 < ax*ax + ay*ay + az*az ->
+  exists a b c d, C03_madgwick_imu_R w x y z gx gy gz ax ay az = Val [a;b;c;d] /\ a*a + b*b + c*c + d*d = 1.
+Proof. intros w x y z gx gy gz ax ay az U G A. rewrite <- eq_madgwick_imu. exact (madgwick_imu_unitL w x y z gx gy gz ax ay az U G A). Qed.
+Print Assumptions C03_madgwick_imu_unit_after_step.
+
+(* the same for Madgwick MARG, about the let_in print of the same decision tree (its convertibility with pysym's print is the
+   thorough-tier lemma eq_madgwick_marg / theorem C03_madgwick_marg_unit_after_step_R) *)
+Theorem C03_madgwick_marg_unit_after_step : forall w x y z gx gy gz ax ay az mx my mz,
+  w*w + x*x + y*y + z*z = 1 -> 0 < gx*gx + gy*gy + gz*gz -> 0 < ax*ax + ay*ay + az*az -> 0 < mx*mx + my*my + mz*mz ->
+  exists a b c d, C03_madgwick_marg_L w x y z gx gy gz ax ay az mx my mz = Val [a;b;c;d] /\ a*a + b*b + c*c + d*d = 1.
+Proof. exact madgwick_marg_unitL. Qed.
+Print Assumptions C03_madgwick_marg_unit_after_step.
+
+(* PARTIAL (missing: non-zero-ness of the vector handed to the final normalisation; absence of rejections): on EVERY path, for ALL
+   inputs, what these steps / estimators return is a unit quaternion or, only when that vector is exactly zero, the zero vector *)
 Theorem C03_unit_or_degenerate_partial : forall w x y z gx gy gz ax ay az mx my mz, w*w + x*x + y*y + z*z = 1 ->
   unit_or_degenerate (C03_madgwick_imu_R w x y z gx gy gz ax ay az) /\
   unit_or_degenerate (C03_roleq_R w x y z gx gy gz ax ay az mx my mz) /\
@@ -52,11 +77,27 @@ Theorem C03_unit_or_degenerate_partial : forall w x y z gx gy gz ax ay az mx my 
   unit_or_degenerate (C03_saam_R ax ay az mx my mz) /\ unit_or_degenerate (C03_famc_R ax ay az mx my mz).
 Proof.
   intros w x y z gx gy gz ax ay az mx my mz U.
-  split; [exact (madgwick_imu_partial w x y z gx gy gz ax ay az U)|]. split; [exact (roleq_partial w x y z gx gy gz ax ay az mx my mz U)|].
-  split; [exact (angular_series2_partial w x y z gx gy gz U)|]. split; [exact (aqua_est_acc_partial ax ay az)|].
-  split; [exact (aqua_est_am_partial ax ay az mx my mz)|]. split; [exact (saam_partial ax ay az mx my mz)|exact (famc_partial ax ay az mx my mz)].
+  rewrite <- eq_madgwick_imu, <- eq_roleq, <- eq_angular_series2, <- eq_aqua_est_acc, <- eq_aqua_est_am, <- eq_saam, <- eq_famc.
+  split; [exact (madgwick_imu_partialL w x y z gx gy gz ax ay az U)|]. split; [exact (roleq_partialL w x y z gx gy gz ax ay az mx my mz U)|].
+  split; [exact (angular_series2_partialL w x y z gx gy gz U)|]. split; [exact (aqua_est_acc_partialL ax ay az)|].
+  split; [exact (aqua_est_am_partialL ax ay az mx my mz)|]. split; [exact (saam_partialL ax ay az mx my mz)|exact (famc_partialL ax ay az mx my mz)].
 Qed.
 Print Assumptions C03_unit_or_degenerate_partial.
+
+(* the same PARTIAL statement for the large steps, about the let_in print of their decision trees: Madgwick MARG, AQUA updateIMU and
+   updateMARG (all paths incl. both slerp branches), Fourati, FQA (34 paths) *)
+Theorem C03_unit_or_degenerate_large_partial : forall w x y z gx gy gz ax ay az mx my mz, w*w + x*x + y*y + z*z = 1 ->
+  unit_or_degenerate (C03_madgwick_marg_L w x y z gx gy gz ax ay az mx my mz) /\
+  unit_or_degenerate (C03_aqua_imu_L w x y z gx gy gz ax ay az) /\
+  unit_or_degenerate (C03_aqua_marg_L w x y z gx gy gz ax ay az mx my mz) /\
+  unit_or_degenerate (C03_fourati_L w x y z gx gy gz ax ay az mx my mz) /\
+  unit_or_degenerate (C03_fqa_L ax ay az mx my mz).
+Proof.
+  intros w x y z gx gy gz ax ay az mx my mz U.
+  split; [exact (madgwick_marg_partialL w x y z gx gy gz ax ay az mx my mz U)|]. split; [exact (aqua_imu_partialL w x y z gx gy gz ax ay az U)|].
+  split; [exact (aqua_marg_partialL w x y z gx gy gz ax ay az mx my mz U)|]. split; [exact (fourati_partialL w x y z gx gy gz ax ay az mx my mz U)|exact (fqa_partialL ax ay az mx my mz)].
+Qed.
+Print Assumptions C03_unit_or_degenerate_large_partial.
 
 (* the matrix FLAE hands to the eigen-solver is symmetric for every H (justifies eigh; real eigen-pairs) *)
 Theorem C03_flae_W_symmetric : forall h00 h01 h02 h10 h11 h12 h20 h21 h22,
